@@ -621,6 +621,11 @@ def select_true(ctx: Ctx, m: Arr):
     return m.ghost[key]
 
 
+def select_ghost_of(ctx: Ctx, m: Arr):
+    """(K, sel, rk) of the boolean array m (created on demand: purely definitional)."""
+    return select_true(ctx, m)
+
+
 def setitem(ctx: Ctx, a: Arr, key, value):
     """In-place write a[key] = value (replaces a.fn)."""
     if a.has_views or a.base is not None:
